@@ -1,3 +1,4 @@
+import ACModel.Model.Discretizer
 /-
   Model of the orchestration of `MulticlassCarver.fit`: which classes get a one-vs-rest carver,
   the indicator targets, and the names of the created columns (`append_class`).
@@ -26,5 +27,68 @@ def appendClass (f c : String) : String := f ++ "_" ++ c
 /-- the columns created for the features kept by the carver of each class -/
 def castedNames (kept : String → List String) (classes : List String) : List String :=
   classes.flatMap (fun c => (kept c).map (fun f => appendClass f c))
+
+
+
+/-! ## The fitted state that `MulticlassCarver.fit` assembles
+
+  `MulticlassCarver.fit` fits one `BinaryCarver` per carved class on the indicator target, renames the
+  keys of its `values_orders` / `input_dtypes` with `append_class`, records for every raw feature the
+  list of its kept copies (`features_casting`), and re-initialises itself as a `BaseDiscretizer` over
+  the renamed features; `transform` then duplicates each raw column under the names of its copies
+  (`_cast_features`) and discretizes the copies.  `BRes` is what is read from one fitted
+  `BinaryCarver`; `assemble` is the re-initialisation; `BRes.disc` is the `BinaryCarver` itself seen
+  as the `BaseDiscretizer` it is. -/
+
+/-- what `MulticlassCarver.fit` reads from the `BinaryCarver` of one class -/
+structure BRes where
+  /-- `binary_carver.features` (the kept features) -/
+  features : List String
+  /-- `binary_carver.values_orders` -/
+  orders : List (String × GL)
+  /-- `binary_carver.input_dtypes` (`true` = "float") -/
+  isQuant : List (String × Bool)
+deriving Inhabited
+
+/-- the parameters shared by the multiclass carver and its one-vs-rest carvers -/
+structure Shared where
+  outFloat : Bool
+  strNan : Option String
+  strDefault : Option String
+  dropna : Bool
+
+/-- `dict_append_class(dic, y_class)` -/
+def renameKeys {β : Type} (c : String) (l : List (String × β)) : List (String × β) :=
+  l.map (fun kv => (appendClass kv.1 c, kv.2))
+
+/-- `dict.update(new)` -/
+def dictUpdate {β : Type} (acc new : List (String × β)) : List (String × β) :=
+  new.foldl (fun a kv => aset a kv.1 kv.2) acc
+
+/-- `casted_features`: raw feature ↦ its copies, one per class whose carver kept it, in class order -/
+def castedFeatures (raw classes : List String) (res : String → BRes) : List (String × List String) :=
+  raw.map (fun f => (f, (classes.filter (fun c => decide (f ∈ (res c).features))).map (appendClass f)))
+
+/-- the `BaseDiscretizer` that `MulticlassCarver.fit` re-initialises itself as (before its final
+    `BaseDiscretizer.fit`, which computes the labels) -/
+def assemble (p : Shared) (raw classes : List String) (res : String → BRes) : Disc :=
+  let casted := castedFeatures raw classes res
+  let feats := casted.flatMap (·.2)
+  let orders := classes.foldl (fun acc c => dictUpdate acc (renameKeys c (res c).orders)) []
+  let dtypes := classes.foldl (fun acc c => dictUpdate acc (renameKeys c (res c).isQuant)) []
+  { features := feats,
+    quant := feats.filter (fun f => aget? dtypes f == some true),
+    qual := feats.filter (fun f => aget? dtypes f == some false),
+    orders := orders, outFloat := p.outFloat, strNan := p.strNan, strDefault := p.strDefault,
+    dropna := p.dropna, featDropna := feats.map (fun f => (f, p.dropna)), lpv := [], casting := casted }
+
+/-- a fitted `BinaryCarver` as the `BaseDiscretizer` it is (before the final label computation) -/
+def BRes.disc (p : Shared) (r : BRes) : Disc :=
+  { features := r.features,
+    quant := r.features.filter (fun f => aget? r.isQuant f == some true),
+    qual := r.features.filter (fun f => aget? r.isQuant f == some false),
+    orders := r.orders, outFloat := p.outFloat, strNan := p.strNan, strDefault := p.strDefault,
+    dropna := p.dropna, featDropna := r.features.map (fun f => (f, p.dropna)), lpv := [],
+    casting := r.features.map (fun f => (f, [f])) }
 
 end Multi
